@@ -470,6 +470,7 @@ func checkC13(p *Prog, r *Report) {
 	ruleStatusAfterSession(p, r, "R13.2")
 	ruleTruthfulStatus(p, r, "R13.5")
 	rulePolicyOfTheCodeUsed(p, r)
+	ruleWholeFileComparison(p, r, reader)
 	r.Trusted = []string{"go/ssa construction", "both sides share the struct type status.status, so field names agree by construction"}
 	r.NotDec = "sufficiency of the two-slot encoding over all event histories; bzip2/removal cases at run time; clock monotonicity"
 }
@@ -939,4 +940,124 @@ func rulePolicyOfTheCodeUsed(p *Prog, r *Report) {
 		}
 	}
 	r.floor("R13.7", "call sites of status writers", nSites, 2)
+}
+
+// ruleWholeFileComparison: R13.8.
+func ruleWholeFileComparison(p *Prog, r *Report, reader *ssa.Function) {
+	r.rule("R13.8", "The reader decides 'same code' by comparing complete file contents: the decision to list the device is an If on the result of slices.Equal / bytes.Equal (or == on strings), and both operands are whole reads — result 0 of os.ReadFile, or of io.ReadAll on a reader built only from os.Open and bzip2.NewReader (no io.LimitReader / section reader / re-slice), possibly through a module helper all of whose returns have that form (nil for a missing file).")
+	var whole func(v ssa.Value, d int) string
+	whole = func(v ssa.Value, d int) string {
+		if d > 6 {
+			return "too deep"
+		}
+		if isNilConst(v) {
+			return ""
+		}
+		switch x := v.(type) {
+		case *ssa.Phi:
+			for _, e := range x.Edges {
+				if w := whole(e, d+1); w != "" {
+					return w
+				}
+			}
+			return ""
+		case *ssa.UnOp:
+			if vals, ok := cellValues(x.X); ok && x.Op == token.MUL {
+				for _, sv := range vals {
+					if w := whole(sv, d+1); w != "" {
+						return w
+					}
+				}
+				return ""
+			}
+		case *ssa.Convert:
+			return whole(x.X, d+1)
+		case *ssa.Slice:
+			return "the contents are re-sliced at " + p.ipos(x)
+		case *ssa.Extract:
+			if x.Index != 0 {
+				return "unexpected result index"
+			}
+			return whole(x.Tuple, d+1)
+		case *ssa.Call:
+			f := x.Common().StaticCallee()
+			if f == nil {
+				return "dynamic call at " + p.ipos(x)
+			}
+			switch shortName(f) {
+			case "os.ReadFile":
+				return ""
+			case "io.ReadAll":
+				// the reader argument: only os.Open / bzip2.NewReader / conversions
+				seen := map[ssa.Value]bool{}
+				var bad string
+				var walk func(y ssa.Value)
+				walk = func(y ssa.Value) {
+					if y == nil || seen[y] || bad != "" {
+						return
+					}
+					seen[y] = true
+					if c, ok := y.(*ssa.Call); ok {
+						n := "dynamic call"
+						if cf := c.Common().StaticCallee(); cf != nil {
+							n = shortName(cf)
+						}
+						if n != "os.Open" && n != "compress/bzip2.NewReader" && n != "bzip2.NewReader" && n != "bufio.NewReader" {
+							bad = "the reader passed to io.ReadAll is wrapped by " + n + " at " + p.ipos(c)
+							return
+						}
+					}
+					if in, ok := y.(ssa.Instruction); ok {
+						for _, op := range in.Operands(nil) {
+							if *op != nil {
+								walk(*op)
+							}
+						}
+					}
+					if u, ok := y.(*ssa.UnOp); ok && u.Op == token.MUL {
+						if vals, ok := cellValues(u.X); ok {
+							for _, sv := range vals {
+								walk(sv)
+							}
+						}
+					}
+				}
+				walk(x.Common().Args[0])
+				return bad
+			}
+			if isModFunc(f) {
+				for _, ret := range returnsOf(f) {
+					if len(ret.Results) == 0 {
+						return "helper " + shortName(f) + " returns nothing"
+					}
+					if w := whole(ret.Results[0], d+1); w != "" {
+						return w
+					}
+				}
+				return ""
+			}
+			return "contents come from " + shortName(f)
+		}
+		return "unrecognised origin " + descValue(v, 0)
+	}
+	n := 0
+	for _, cs := range callsOf(reader) {
+		name := cs.calleeName()
+		if i := strings.Index(name, "["); i >= 0 {
+			name = name[:i]
+		}
+		if name != "slices.Equal" && name != "bytes.Equal" {
+			continue
+		}
+		n++
+		bad := ""
+		for _, a := range cs.In.Common().Args {
+			if w := whole(a, 0); w != "" {
+				bad = w
+			}
+		}
+		r.add("R13.8", "whole-contents|"+shortName(reader), p.ipos(cs.In), "both sides of the code comparison are complete file contents", bad == "",
+			"files that differ beyond the compared part are taken as equal and the device is omitted: "+bad)
+	}
+	r.floor("R13.8", "content comparisons in the reader", n, 1)
 }
